@@ -260,6 +260,68 @@ func runXState(c *core.Ctx) []core.Obligation {
 			obs = append(obs, core.Ob("R-XSTATE", construct, c.Pos(fn.Pos()), core.FuncName(fn), core.Violated, whyNot))
 		}
 	}
+	// the two-argument wrappers: whatever they return comes from the chain method applied to THEIR second
+	// argument, so that the crosser is left at d (the next ChainCrossingSign continues from d).
+	for _, w := range []struct{ name, chain string }{{"CrossingSign", "ChainCrossingSign"}, {"EdgeOrVertexCrossing", "EdgeOrVertexChainCrossing"}} {
+		fn := c.Fn("s2", "EdgeCrosser", w.name)
+		construct := "wrapper:" + w.name
+		if fn == nil || len(fn.Params) != 3 {
+			obs = append(obs, core.Ob("R-XSTATE", construct, "-", "", core.Violated, "unresolved anchor"))
+			continue
+		}
+		d := fn.Params[2]
+		ok, why := true, ""
+		nret := 0
+		var check func(v ssa.Value, seen map[ssa.Value]bool)
+		check = func(v ssa.Value, seen map[ssa.Value]bool) {
+			if seen[v] {
+				return
+			}
+			seen[v] = true
+			switch x := v.(type) {
+			case *ssa.Phi:
+				for _, e := range x.Edges {
+					check(e, seen)
+				}
+			case *ssa.Call:
+				f := core.StaticCallee(x)
+				if f == nil || f.Name() != w.chain || len(x.Call.Args) != 2 {
+					ok, why = false, "a result does not come from "+w.chain
+					return
+				}
+				arg := x.Call.Args[1]
+				if ld, isLoad := arg.(*ssa.UnOp); isLoad {
+					// d spilled to a local: *alloc where alloc was stored d
+					if al, isAl := ld.X.(*ssa.Alloc); isAl {
+						for _, ref := range *al.Referrers() {
+							if st, isSt := ref.(*ssa.Store); isSt && st.Addr == al {
+								arg = st.Val
+							}
+						}
+					}
+				}
+				if arg != ssa.Value(d) {
+					ok, why = false, w.name+"(c, d) returns "+w.chain+"(x) for an x that is not its argument d: the answer for the edge may be right, but the crosser is left at the wrong vertex, so the next chained call tests an edge that starts somewhere else"
+				}
+			default:
+				ok, why = false, fmt.Sprintf("a result does not come from %s (%T)", w.chain, v)
+			}
+		}
+		for _, b := range fn.Blocks {
+			if ret, isRet := b.Instrs[len(b.Instrs)-1].(*ssa.Return); isRet && len(ret.Results) == 1 {
+				nret++
+				check(ret.Results[0], map[ssa.Value]bool{})
+			}
+		}
+		if nret == 0 {
+			ok, why = false, "no return found"
+		}
+		if ok {
+			obs = append(obs, core.Ob("R-XSTATE", construct, c.Pos(fn.Pos()), core.FuncName(fn), core.Discharged, "every result is "+w.chain+"(d): the crosser is left at d"))
+		} else {
+			obs = append(obs, core.Ob("R-XSTATE", construct, c.Pos(fn.Pos()), core.FuncName(fn), core.Violated, why))
+		}
+	}
 	return obs
 }
 
